@@ -167,7 +167,7 @@ const (
 	nafWorkers    = 4
 	nafBodySteps  = 20_000           // instruction budget of one run of the loop body (a run takes about 50)
 	nafMaxBad     = 50               // violating leaves of one task before the tabulation is abandoned
-	nafTaskBudget = 30 * time.Second // wall-clock budget of one (width, range) task
+	nafTaskBudget = 4 * time.Minute // wall-clock budget of one (width, range) task
 )
 
 func (c *checker) recodeNAF(rc *recodeCtx) {
